@@ -23,6 +23,7 @@ package fasthttp
 import (
 	"context"
 	"fmt"
+	"os"
 	"sort"
 	"strings"
 	"sync"
@@ -38,6 +39,7 @@ const (
 	vpC15Slack    = 10 * time.Second // asynchronous tails after Shutdown returned (nominal: microseconds)
 
 	vpC15KeyPipe = "C15/pipelined-response-not-flushed-on-shutdown"
+	vpC15KeyWake = "C15/idle-close-races-with-new-request"
 )
 
 // ---------------------------------------------------------------------------------------------
@@ -45,14 +47,14 @@ const (
 
 type vpC15Conn struct {
 	Ln        int
-	Phase     string // idle | gate | pipe | done | late | fresh
+	Phase     string // idle | gate | pipe | done | late | wake | fresh
 	Pre       int    // fast requests answered before the phase request
 	Release   int    // gate/pipe: 0 answered before Shutdown, 1 opened together with the Shutdown call, 2 after stop flag seen, 3 after stop flag + DelayMs
 	DelayMs   int
 	Followers int  // pipe: requests queued behind the gated one
 	Split     bool // pipe: followers are sent only after the gated handler started (else: one write)
 	LateKind  string
-	LateAfter bool // late: started after (else just before) the Shutdown goroutine
+	LateAfter bool // late/wake: started after (else just before) the Shutdown goroutine
 }
 
 type vpC15Scenario struct {
@@ -80,6 +82,8 @@ func (sc vpC15Scenario) String() string {
 			fmt.Fprintf(&b, " rel=%d d=%d fol=%d split=%v", c.Release, c.DelayMs, c.Followers, c.Split)
 		case "late":
 			fmt.Fprintf(&b, " kind=%s after=%v", c.LateKind, c.LateAfter)
+		case "wake":
+			fmt.Fprintf(&b, " after=%v", c.LateAfter)
 		}
 	}
 	return b.String()
@@ -108,17 +112,26 @@ func vpC15Gen(t *rapid.T) vpC15Scenario {
 	for j := 0; j < n; j++ {
 		var c vpC15Conn
 		c.Ln = rapid.IntRange(0, nl-1).Draw(t, "ln")
-		phases := []string{"idle", "gate", "gate", "pipe", "pipe", "done", "late"}
+		phases := []string{"idle", "gate", "gate", "pipe", "pipe", "done", "late", "wake"}
 		if vpThorough() && !fresh {
 			// a never-used connection is only "idle" 5 s after it was accepted: expensive, thorough only
-			if rapid.IntRange(0, 29).Draw(t, "freshDie") == 0 {
+			if rapid.IntRange(0, 59).Draw(t, "freshDie") == 0 {
 				phases = []string{"fresh"}
 			}
 		}
 		c.Phase = rapid.SampledFrom(phases).Draw(t, "phase")
+		if c.Phase == "wake" && vpKnownOpen(vpC15KeyWake) && os.Getenv("VP_C15_FORCE_WAKE") == "" { // env: harness debugging only
+			// known finding: a request arriving on an idle keep-alive connection while Shutdown closes idle
+			// connections can have its handler run and its response dropped. Keep the connection idle.
+			vpExclude(vpC15KeyWake)
+			c.Phase = "idle"
+		}
 		switch c.Phase {
 		case "idle":
 			c.Pre = rapid.IntRange(1, 3).Draw(t, "pre")
+		case "wake":
+			c.Pre = rapid.IntRange(1, 3).Draw(t, "pre")
+			c.LateAfter = rapid.Bool().Draw(t, "wakeAfter")
 		case "gate", "pipe":
 			c.Pre = rapid.IntRange(0, 2).Draw(t, "pre")
 			c.Release = rapid.SampledFrom([]int{0, 1, 1, 2, 2, 2, 3, 3}).Draw(t, "release")
@@ -133,16 +146,24 @@ func vpC15Gen(t *rapid.T) vpC15Scenario {
 					// then is the kernel's business, not fasthttp's: keep that variant off real sockets
 					c.Split = false
 				}
-				if pipeKnown && !c.Split && !sc.ReduceMem && (c.Release == 1 || (c.Release >= 2 && !sc.CloseOnShutdown)) {
-					// known finding: the buffered (unflushed) response is dropped. ReduceMemoryUsage always
+				if pipeKnown && !sc.ReduceMem {
+					// known finding: a response that is still in the write buffer because successors are already
+					// buffered is dropped when the loop-end check sees the stop flag. ReduceMemoryUsage always
 					// flushes; CloseOnShutdown flushes only if the stop flag was already set when the handler
-					// returned (Release>=2), a handler racing the Shutdown call (Release==1) can still lose.
-					// Steer to the variant in which the followers arrive after the gated handler started.
-					vpExclude(vpC15KeyPipe)
-					if sc.LnKinds[c.Ln] == "tcp" {
-						c.Release = 0
-					} else {
-						c.Split = true
+					// returned. Requests with buffered successors are the gated one (!Split) and the first of two
+					// followers (they are read together); "ends while the flag may flip" is Release==1 for both,
+					// plus Release>=2 without CloseOnShutdown for the gated one. Steer out of exactly that set.
+					if !c.Split && (c.Release == 1 || (c.Release >= 2 && !sc.CloseOnShutdown)) {
+						vpExclude(vpC15KeyPipe)
+						if sc.LnKinds[c.Ln] == "tcp" {
+							c.Release = 0
+						} else {
+							c.Split = true
+						}
+					}
+					if c.Split && c.Release == 1 && c.Followers >= 2 {
+						vpExclude(vpC15KeyPipe)
+						c.Followers = 1
 					}
 				}
 			}
@@ -391,6 +412,10 @@ func vpC15RunScenario(t *rapid.T, sc vpC15Scenario) {
 			r.reqs[j] = append(r.reqs[j], vpC15Req{id, c.LateKind})
 		case "idle":
 			idle++
+		case "wake":
+			// one more request on the idle keep-alive connection, sent together with the Shutdown call
+			r.reqs[j] = append(r.reqs[j], vpC15Req{id, "fast"})
+			idle++
 		case "fresh":
 			fresh = true
 		}
@@ -486,7 +511,15 @@ func vpC15RunScenario(t *rapid.T, sc vpC15Scenario) {
 			}(j)
 		}
 	}
+	startWake := func(after bool) {
+		for j, c := range sc.Conns {
+			if c.Phase == "wake" && c.LateAfter == after {
+				r.clients[j].send(vpC15ReqBytes(r.reqs[j][c.Pre]))
+			}
+		}
+	}
 	startLate(false)
+	startWake(false)
 	if sc.GateFirst {
 		openRel(1)
 	}
@@ -495,6 +528,7 @@ func vpC15RunScenario(t *rapid.T, sc vpC15Scenario) {
 		openRel(1)
 	}
 	startLate(true)
+	startWake(true)
 
 	// ---- the harness sees that shutdown has begun (or already ended), then opens the remaining gates
 	var shutErr error
@@ -712,6 +746,13 @@ func vpC15RunScenario(t *rapid.T, sc vpC15Scenario) {
 				vpExtra("late/closed-unserved", 1)
 			}
 		}
+		if c.Phase == "wake" {
+			if len(resps) > c.Pre {
+				vpExtra("wake/served", 1)
+			} else {
+				vpExtra("wake/closed-unserved", 1)
+			}
+		}
 		if c.Phase == "pipe" {
 			vpExtra(fmt.Sprintf("pipe/responses=%d-of-%d", len(resps)-c.Pre, 1+c.Followers), 1)
 		}
@@ -726,6 +767,7 @@ func vpC15RunScenario(t *rapid.T, sc vpC15Scenario) {
 
 func TestVP_C15_Shutdown(t *testing.T) {
 	vpC15ProbePipe()
+	vpC15ProbeWake()
 	rapid.Check(t, func(t *rapid.T) {
 		sc := vpC15Gen(t)
 		vpC15RunScenario(t, sc)
@@ -799,5 +841,100 @@ func vpC15ProbePipe() {
 			}
 		}
 		vpProbe(vpC15KeyPipe, false, "the response of a request with pipelined successors is delivered when its handler ends during Shutdown")
+	})
+}
+
+// vpC15HoldConn models one legal schedule of a real socket: the Read that picks up the next request
+// has completed, but the reading goroutine only resumes after another goroutine called Close (for a
+// net.TCPConn, Close marks the descriptor closed and then waits for exactly such a Read to return).
+type vpC15HoldConn struct {
+	*vpWire
+	armed    chan struct{} // closed by the harness: from now on a Read that got bytes waits for Close
+	holding  chan struct{} // closed by the conn when such a Read is waiting
+	closing  chan struct{} // closed by Close
+	holdOnce sync.Once
+	clsOnce  sync.Once
+}
+
+func (c *vpC15HoldConn) Read(p []byte) (int, error) {
+	n, err := c.vpWire.Read(p)
+	select {
+	case <-c.armed:
+		if n > 0 {
+			c.holdOnce.Do(func() { close(c.holding) })
+			select {
+			case <-c.closing:
+			case <-time.After(vpC15Slack):
+			}
+		}
+	default:
+	}
+	return n, err
+}
+
+func (c *vpC15HoldConn) Close() error {
+	c.clsOnce.Do(func() { close(c.closing) })
+	return c.vpWire.Close()
+}
+
+// vpC15ProbeWake: deterministic probe of the known-finding class "a request arrives on an idle
+// keep-alive connection while Shutdown closes idle connections". Present = the handler of that
+// request ran, Shutdown returned nil, and the client has no response for it.
+var vpC15ProbeWakeOnce sync.Once
+
+func vpC15ProbeWake() {
+	vpC15ProbeWakeOnce.Do(func() {
+		var ranOnce sync.Once
+		started := make(chan struct{})
+		s := &Server{Logger: vpNopLogger{}, Handler: func(ctx *RequestCtx) {
+			if string(ctx.Path()) == "/second" {
+				ranOnce.Do(func() { close(started) })
+			}
+			ctx.SetBodyString("id=" + string(ctx.Path()))
+		}}
+		ln := vpC15NewListener()
+		served := make(chan error, 1)
+		go func() { served <- s.Serve(ln) }()
+		if !vpC15WaitRegistered(s, 1) {
+			ln.Close()
+			vpNote("C15 wake probe could not run: Serve did not start")
+			return
+		}
+		hc := &vpC15HoldConn{vpWire: vpNewWire(nil, nil, false), armed: make(chan struct{}), holding: make(chan struct{}), closing: make(chan struct{})}
+		ln.ch <- hc
+		hc.Feed([]byte("GET /first HTTP/1.1\r\nHost: vp\r\n\r\n"))
+		if !hc.WaitOut(vpC15SetupMax, func(out []byte) bool { return vpC15Complete(out) >= 1 }) || hc.WaitIdleOrClosed(vpC15SetupMax) != "idle" {
+			hc.Close()
+			ln.Close()
+			vpNote("C15 wake probe could not run: no first response")
+			return
+		}
+		close(hc.armed)
+		hc.Feed([]byte("GET /second HTTP/1.1\r\nHost: vp\r\n\r\n"))
+		select {
+		case <-hc.holding: // the server's Read has the request; the connection still counts as idle
+		case <-time.After(vpC15SetupMax):
+			hc.Close()
+			ln.Close()
+			vpNote("C15 wake probe could not run: the second request was not read")
+			return
+		}
+		serr := s.Shutdown()
+		<-served
+		hc.WaitOut(vpC15Slack, func([]byte) bool { return false })
+		resps, _ := vpC15Parse(hc.Out())
+		hc.Close()
+		handlerRan := false
+		select {
+		case <-started:
+			handlerRan = true
+		default:
+		}
+		if serr == nil && handlerRan && len(resps) < 2 {
+			vpProbe(vpC15KeyWake, true, "keep-alive connection idle after GET /first; the Read that delivers GET /second returns just after Shutdown's closeIdleConns closed the connection: "+
+				"the /second handler ran, Shutdown returned nil, the client got no response for /second")
+			return
+		}
+		vpProbe(vpC15KeyWake, false, fmt.Sprintf("handlerRan=%v responses=%d shutdownErr=%v", handlerRan, len(resps), serr))
 	})
 }
